@@ -2,39 +2,46 @@ import PV.C18.Model
 import PV.C18.Spec
 import PV.C18.Lemmas
 /-
-  C18 — property theorems: the model of `format/src/format.rs` (`PV.C18.*`, Model.lean) against the
-  reference reading of Python's format-spec mini-language (`PV.C18.Spec.*`, Spec.lean).
+  C18 — property theorems: the model of `format/src/format.rs` (`PV.C18.*`, Model.lean; the code
+  as repaired by e5c4721, a6de50b, 19885fd, 54c4118, b3fed62, b59d482) against the reference reading
+  of Python's format-spec mini-language (`PV.C18.Spec.*`, Spec.lean).
 
   Text is a list of Unicode scalar values.  `Res.view` is the observable outcome of a Rust call:
   `none` = panic, `some none` = `Err(_)` (kinds are not observed), `some (some t)` = text.
   `Spec.pyFormat … = none` means CPython raises.
 
-  The unchanged code deviates from Python on many input shapes (known findings).  Each theorem
-  below therefore holds on an explicit decidable domain (`InDomain`, built from `hasConvPrefix`,
-  `InDomainInt`, `InDomainStr`), and each excluded shape has a `decide`d witness on the model in the
-  section "witnessed negations".  Helper lemmas are in `PV/C18/Lemmas.lean`.
+  Sections 1–3 and 6 are full statements.  The end-to-end equalities of section 5 hold on the
+  explicit decidable domain `InDomain`, which excludes only the shapes the repaired code still gets
+  wrong (each with a `decide`d witness in section 7) and float formatting (tied by correspondence).
+  Helper lemmas are in `PV/C18/Lemmas.lean`.
 -/
 namespace PV.C18
 open Spec
 
 /-! ## 1. The spec parser is the reference grammar -/
 
-/-- Whatever `FormatSpec::parse` accepts (without a `!x` conversion prefix, and not with the
-    non-Python type letter `N`) is in the reference grammar, without the `z` flag, and the parsed
-    fields are the grammar's fields with the `0` flag folded into fill/alignment. -/
-theorem parse_spec_eq_partial (s : List Nat) (r : FormatSpec) (h : parseSpec s = .ok r)
-    (hc : hasConvPrefix s = false) (hN : r.ftype ≠ some (.number true)) :
-    ∃ p, pyParseSpec s = some p ∧ p.z = false ∧ normOf p = r :=
-  let ⟨p, h1, h2, h3, _⟩ := parse_spec_sound s r h hc hN
-  ⟨p, h1, h2, h3⟩
+/-- Whatever `FormatSpec::parse` accepts (other than with the non-Python type letter `N`, which every
+    `format_*` rejects) is in the reference grammar, without the `z` flag, and the parsed fields are
+    the grammar's fields with the `0` flag folded into fill/alignment; width and precision fit `i32`. -/
+theorem parse_spec_eq (s : List Nat) (r : FormatSpec) (h : parseSpec s = .ok r)
+    (hN : r.ftype ≠ some (.number true)) :
+    ∃ p, pyParseSpec s = some p ∧ p.z = false ∧ normOf p = r ∧
+      (∀ w, p.width = some w → w ≤ i32Max) ∧ (∀ n, p.precision = some n → n ≤ i32Max) :=
+  parse_spec_sound s r h hN
 
-/-- Conversely every spec of the reference grammar without `z`, with a width that fits `usize` and
-    a precision that fits `i32`, is accepted with exactly those fields. -/
+/-- Conversely every spec of the reference grammar without `z`, with a width and a precision that
+    fit `i32`, is accepted with exactly those fields (`z` and larger numbers are the listed findings
+    `z-flag-rejected`, `precision-over-i32-rejected` and the width limit of b59d482). -/
 theorem parse_spec_complete_partial (s : List Nat) (p : PySpec) (h : pyParseSpec s = some p)
-    (hz : p.z = false) (hc : hasConvPrefix s = false)
-    (hw : ∀ w, p.width = some w → w ≤ usizeMax) (hp : ∀ n, p.precision = some n → n ≤ i32Max) :
+    (hz : p.z = false)
+    (hw : ∀ w, p.width = some w → w ≤ i32Max) (hp : ∀ n, p.precision = some n → n ≤ i32Max) :
     parseSpec s = .ok (normOf p) :=
-  parse_spec_complete s p h hz hc hw hp
+  parse_spec_complete s p h hz hw hp
+
+/-- A spec outside the grammar is rejected (at parse time, or — type `N` — by every formatter). -/
+theorem parse_spec_rejects (s : List Nat) (hp : pyParseSpec s = none) :
+    (∃ e, parseSpec s = .error e) ∨ (∃ r, parseSpec s = .ok r ∧ r.ftype = some (.number true)) :=
+  parse_of_py_none s hp
 
 example : (parseSpec [42, 94, 43, 35, 48, 49, 50, 44, 46, 51, 102]).toOption =      -- "*^+#012,.3f"
     some (normOf ⟨some 42, some 94, some 43, false, true, true, some 12, some 44, some 3, some 102⟩) := by
@@ -61,11 +68,17 @@ theorem group_spec (sep w : Nat) (ds : List Nat) (hne : ds ≠ []) :
 example : separateInteger [49, 50, 51, 52] 3 44 (max 8 4) = some [48, 44, 48, 48, 49, 44, 50, 51, 52] := by
   decide                                                              -- 1234, width 8 → 0,001,234
 
+/-- `add_magnitude_separators` on the digits of an integer: the width drives zero padding exactly
+    when the parsed fields say "fill `0`, align `=`", which is the reference's `zeroEq`. -/
+theorem group_zero_padding_spec (p : PySpec) (wf : WfSpec p) :
+    ((normOf p).fill = some 48 ∧ (normOf p).align = some .afterSign) ↔ zeroEq p = true :=
+  normOf_zeroPadded p wf
+
 /-! ## 3. Fill, alignment, width -/
 
 /-- `format_sign_and_align` is Python's padding: fill to `width` on the side the alignment names,
     between sign and digits for `=`, the odd character on the right for `^`
-    (widths below 2^31, text shorter than 2^31). -/
+    (widths below 2^31 — all the parser lets through — and text shorter than 2^31). -/
 theorem align_spec (spec : FormatSpec) (mag sign : List Nat) (dflt : Align)
     (hw : ∀ w, spec.width = some w → w < 2 ^ 31) (hm : mag.length + sign.length < 2 ^ 31) :
     formatSignAndAlign spec mag mag.length sign dflt =
@@ -82,33 +95,35 @@ example : formatSignAndAlign (normOf ⟨none, none, none, false, false, true, so
 
 /-! ## 4. Domain of the end-to-end theorems -/
 
-/-- The inputs on which the unchanged code is claimed (and proved) to agree with Python.
-    `false` for doubles: float formatting is tied by correspondence only. -/
+/-- The inputs on which the code is proved to agree with Python.  A spec outside the grammar is in
+    the domain (both reject).  `InDomainInt`: width < 2^30, |n| < 2^(2^28), a non-float presentation
+    type, not `c` on a surrogate.  `InDomainStr`: width/precision < 2^31, text shorter than 2^30, no
+    `=` alignment, no `0` flag that would pad.  `false` for doubles: float formatting is tied by
+    correspondence only. -/
 def InDomain (spec : List Nat) (v : Value) : Bool :=
-  !hasConvPrefix spec &&
   match pyParseSpec spec with
-  | none => true                       -- not in the grammar: rejected by both
+  | none => true
   | some p =>
     match v with
     | .int n => InDomainInt p n
     | .str s => InDomainStr p s
-    | .bool b => spec.isEmpty || (p.type.isSome && InDomainInt p (if b then 1 else 0))
+    | .bool b => spec.isEmpty || InDomainInt p (if b then 1 else 0)
     | .float _ => false
 
 theorem domain_bounds {p : PySpec} {n : Int} (h : InDomainInt p n = true) :
-    (∀ w, p.width = some w → w ≤ usizeMax) ∧ (∀ m, p.precision = some m → m ≤ i32Max) := by
+    (∀ w, p.width = some w → w ≤ i32Max) ∧ (∀ m, p.precision = some m → m ≤ i32Max) := by
   simp only [InDomainInt, boundsOkInt, Bool.and_eq_true, decide_eq_true_eq] at h
   obtain ⟨⟨⟨⟨h1, h2⟩, _⟩, _⟩, _⟩ := h
   constructor
-  · intro w hw; rw [hw] at h1; simp at h1; unfold usizeMax; omega
+  · intro w hw; rw [hw] at h1; simp at h1; unfold i32Max; omega
   · intro m hm; rw [hm] at h2; simp at h2; unfold i32Max; omega
 
 theorem domain_bounds_str {p : PySpec} {s : List Nat} (h : InDomainStr p s = true) :
-    (∀ w, p.width = some w → w ≤ usizeMax) ∧ (∀ m, p.precision = some m → m ≤ i32Max) := by
+    (∀ w, p.width = some w → w ≤ i32Max) ∧ (∀ m, p.precision = some m → m ≤ i32Max) := by
   simp only [InDomainStr, boundsOk, Bool.and_eq_true, decide_eq_true_eq] at h
   obtain ⟨⟨⟨h1, h2⟩, _⟩, _⟩ := h
   constructor
-  · intro w hw; rw [hw] at h1; simp at h1; unfold usizeMax; omega
+  · intro w hw; rw [hw] at h1; simp at h1; unfold i32Max; omega
   · intro m hm; rw [hm] at h2; simp at h2; unfold i32Max; omega
 
 /-! ## 5. `format_int`, `format_string`, `format_bool` equal Python's `format` -/
@@ -116,15 +131,15 @@ theorem domain_bounds_str {p : PySpec} {s : List Nat} (h : InDomainStr p s = tru
 /-- For every spec string and every integer in the domain (any size below 2^(2^28)):
     parsing the spec and `format_int` give exactly Python's text, fail exactly when Python raises,
     and never panic — sign, `#` prefixes, radix, `c`, zero flag, width, fill/alignment, `,`/`_`
-    grouping at interval 3/4 with sign-aware zero padding, precision rejected. -/
+    grouping at interval 3/4 with sign-aware zero padding, precision rejected.
+    Partial only in: float presentation types, `c` on a surrogate, width ≥ 2^30. -/
 theorem format_int_eq_partial (spec : List Nat) (n : Int) (h : InDomain spec (.int n) = true) :
     (format spec (.int n)).view = some (pyFormat spec (.int n)) := by
-  simp only [InDomain, Bool.and_eq_true, Bool.not_eq_true'] at h
-  obtain ⟨hc, h⟩ := h
+  unfold InDomain at h
   unfold format pyFormat
   cases hp : pyParseSpec spec with
   | none =>
-    rcases parse_of_py_none spec hp hc with ⟨e, he⟩ | ⟨r, hr, hN⟩
+    rcases parse_of_py_none spec hp with ⟨e, he⟩ | ⟨r, hr, hN⟩
     · rw [he]; rfl
     · rw [hr]; obtain ⟨e, he⟩ := formatInt_N r n hN; simp [formatValue, he, Res.view]
   | some p =>
@@ -133,26 +148,26 @@ theorem format_int_eq_partial (spec : List Nat) (n : Int) (h : InDomain spec (.i
     have wf := pyParse_wf spec p hp
     cases hz : p.z with
     | true =>
-      rw [parseSpec_of_z spec p hp hz hc]
+      rw [parseSpec_of_z spec p hp hz]
       have hfl : isFloatType p.type = false := by
         simp only [InDomainInt, Bool.and_eq_true, Bool.not_eq_true'] at h; exact h.1.2
       simp [Res.view, pyFormatInt, hfl, hz]
     | false =>
       obtain ⟨hw, hpb⟩ := domain_bounds h
-      rw [parse_spec_complete spec p hp hz hc hw hpb]
+      rw [parse_spec_complete spec p hp hz hw hpb]
       exact formatInt_eq p n wf hz h
 
 /-- For every spec string and every text (shorter than 2^30 characters) in the domain:
     `format_string` gives exactly Python's text — precision truncates by characters, then fill and
-    alignment to the width — and fails exactly when Python raises. -/
+    alignment to the width — and fails exactly when Python raises (sign, `#`, grouping, a non-string
+    type).  Partial only in: `=` alignment and the `0` flag (folded into `align` by the parser). -/
 theorem format_str_eq_partial (spec s : List Nat) (h : InDomain spec (.str s) = true) :
     (format spec (.str s)).view = some (pyFormat spec (.str s)) := by
-  simp only [InDomain, Bool.and_eq_true, Bool.not_eq_true'] at h
-  obtain ⟨hc, h⟩ := h
+  unfold InDomain at h
   unfold format pyFormat
   cases hp : pyParseSpec spec with
   | none =>
-    rcases parse_of_py_none spec hp hc with ⟨e, he⟩ | ⟨r, hr, hN⟩
+    rcases parse_of_py_none spec hp with ⟨e, he⟩ | ⟨r, hr, hN⟩
     · rw [he]; rfl
     · rw [hr]; obtain ⟨e, he⟩ := formatString_N r s hN; simp [formatValue, he, Res.view]
   | some p =>
@@ -161,28 +176,27 @@ theorem format_str_eq_partial (spec s : List Nat) (h : InDomain spec (.str s) = 
     have wf := pyParse_wf spec p hp
     cases hz : p.z with
     | true =>
-      rw [parseSpec_of_z spec p hp hz hc]
+      rw [parseSpec_of_z spec p hp hz]
       simp [Res.view, pyFormatStr, hz]
     | false =>
       obtain ⟨hw, hpb⟩ := domain_bounds_str h
-      rw [parse_spec_complete spec p hp hz hc hw hpb]
+      rw [parse_spec_complete spec p hp hz hw hpb]
       exact formatString_eq p s wf hz h
 
-/-- Booleans: the empty spec gives `True`/`False`; with an integer presentation type a bool is
-    formatted as the integer 0/1. -/
+/-- Booleans: the empty spec gives `True`/`False`; any other spec formats the integer 0/1
+    (partial only where `format_int_eq_partial` is). -/
 theorem format_bool_eq_partial (spec : List Nat) (b : Bool) (h : InDomain spec (.bool b) = true) :
     (format spec (.bool b)).view = some (pyFormat spec (.bool b)) := by
-  simp only [InDomain, Bool.and_eq_true, Bool.not_eq_true'] at h
-  obtain ⟨hc, h⟩ := h
+  unfold InDomain at h
   unfold format pyFormat
   cases hp : pyParseSpec spec with
   | none =>
-    rcases parse_of_py_none spec hp hc with ⟨e, he⟩ | ⟨r, hr, hN⟩
+    rcases parse_of_py_none spec hp with ⟨e, he⟩ | ⟨r, hr, hN⟩
     · rw [he]; rfl
     · rw [hr]; obtain ⟨e, he⟩ := formatBool_N r b hN; simp [formatValue, he, Res.view]
   | some p =>
     rw [hp] at h
-    simp only [Bool.or_eq_true, Bool.and_eq_true] at h
+    simp only [Bool.or_eq_true] at h
     by_cases hemp : spec = []
     · subst hemp
       have hp' : pyParseSpec [] = some ⟨none, none, none, false, false, false, none, none, none, none⟩ := by
@@ -193,36 +207,44 @@ theorem format_bool_eq_partial (spec : List Nat) (b : Bool) (h : InDomain spec (
         cases spec with
         | nil => exact absurd rfl hemp
         | cons a l => rfl
-      rcases h with h | ⟨hty, hd⟩
+      rcases h with h | hd
       · rw [hemp'] at h; cases h
       · have wf := pyParse_wf spec p hp
         simp only [hemp', Bool.false_eq_true, if_false]
+        have hfl : isFloatType p.type = false := by
+          simp only [InDomainInt, Bool.and_eq_true, Bool.not_eq_true'] at hd; exact hd.1.2
         cases hz : p.z with
         | true =>
-          rw [parseSpec_of_z spec p hp hz hc]
-          have hfl : isFloatType p.type = false := by
-            simp only [InDomainInt, Bool.and_eq_true, Bool.not_eq_true'] at hd; exact hd.1.2
+          rw [parseSpec_of_z spec p hp hz]
           simp [Res.view, pyFormatInt, hfl, hz]
         | false =>
           obtain ⟨hw, hpb⟩ := domain_bounds hd
-          rw [parse_spec_complete spec p hp hz hc hw hpb]
-          have hfl : isFloatType p.type = false := by
-            simp only [InDomainInt, Bool.and_eq_true, Bool.not_eq_true'] at hd; exact hd.1.2
-          obtain ⟨t, ht⟩ : ∃ t, p.type = some t := by
-            cases h' : p.type with
-            | none => simp [h'] at hty
-            | some t => exact ⟨t, rfl⟩
+          rw [parse_spec_complete spec p hp hz hw hpb]
           have key := formatInt_eq p (if b then 1 else 0) wf hz hd
           have hft : (normOf p).ftype = p.type.bind typeOfChar := rfl
-          -- `format_bool` dispatches every non-float presentation type but `s` to `format_int`
-          rcases isType_cases t (wf.type t ht) with h | h | h | h | h | h | h | h | h | h | h | h | h | h | h <;>
-            subst h <;>
-            first
-              | (simp [isFloatType, ht] at hfl; done)
-              | (simp only [formatValue, formatBool, hft, ht, typeOfChar, Option.bind_some]; exact key)
-              | (simp [formatValue, formatBool, hft, ht, typeOfChar, pyFormatInt, isFloatType, hz, Res.view])
+          cases ht : p.type with
+          | none =>
+            have hnd := formatBool_default_iff spec p hp hz hemp ht
+            simp only [formatValue, formatBool, hft, ht, Option.bind_none, if_neg hnd]
+            exact key
+          | some t =>
+            -- `format_bool` dispatches every non-float presentation type but `s` to `format_int`
+            rcases isType_cases t (wf.type t ht) with h | h | h | h | h | h | h | h | h | h | h | h | h | h | h <;>
+              subst h <;>
+              first
+                | (simp [isFloatType, ht] at hfl; done)
+                | (simp only [formatValue, formatBool, hft, ht, typeOfChar, Option.bind_some]; exact key)
+                | (simp [formatValue, formatBool, hft, ht, typeOfChar, pyFormatInt, isFloatType, hz, Res.view])
 
 /-! ## 6. No panic -/
+
+/-- FULL for text: no spec string whatsoever and no text shorter than 2^30 characters makes
+    parsing + `format_string` panic (before 19885fd `format("é", ".1")` did). -/
+theorem no_panic_str (spec s : List Nat) (hs : s.length < 2 ^ 30) : format spec (.str s) ≠ .panic := by
+  unfold format
+  cases hp : parseSpec spec with
+  | error e => simp
+  | ok r => exact formatString_no_panic r s (parseSpec_width spec r hp) hs
 
 /-- On the domain no spec and no integer, text or boolean makes parsing + formatting panic. -/
 theorem no_panic_partial (spec : List Nat) (v : Value) (h : InDomain spec v = true) :
@@ -234,13 +256,12 @@ theorem no_panic_partial (spec : List Nat) (v : Value) (h : InDomain spec v = tr
   | str s => rw [format_str_eq_partial spec s h] at hview; cases hview
   | bool b => rw [format_bool_eq_partial spec b h] at hview; cases hview
   | float b =>
-    simp only [InDomain, Bool.and_eq_true, Bool.not_eq_true'] at h
-    obtain ⟨hc, h⟩ := h
+    unfold InDomain at h
     cases hp : pyParseSpec spec with
     | some p => simp [hp] at h
     | none =>
       unfold format at hpanic
-      rcases parse_of_py_none spec hp hc with ⟨e, he⟩ | ⟨r, hr, hN⟩
+      rcases parse_of_py_none spec hp with ⟨e, he⟩ | ⟨r, hr, hN⟩
       · rw [he] at hpanic; cases hpanic
       · rw [hr] at hpanic
         obtain ⟨e, he⟩ := formatFloat_N r b hN
@@ -250,13 +271,13 @@ theorem no_panic_partial (spec : List Nat) (v : Value) (h : InDomain spec v = tr
 example : InDomain [48, 61, 49, 50, 44] (.int 1234567) = true := by decide            -- "0=12,"
 example : (format [48, 61, 49, 50, 44] (.int 1234567)).view =
     some (some [48, 44, 48, 48, 49, 44, 50, 51, 52, 44, 53, 54, 55]) := by decide       -- 0,001,234,567
+example : InDomain [62, 49, 50, 44] (.int 1234567) = true := by decide                 -- ">12," (no zero padding)
 example : InDomain [43, 35, 48, 49, 50, 95, 88] (.int (-48879)) = true := by decide     -- "+#012_X"
-example : InDomain [233, 94, 55] (.str [97, 98]) = true := by decide                   -- "é^7" on "ab"
-example : InDomain [60, 52, 46, 54] (.str [97, 98, 99, 100, 101, 102, 103]) = true := by decide  -- "<4.6"
-example : InDomain [42, 94, 55] (.str [26085, 26412]) = true := by decide               -- "*^7" on 日本
-example : InDomain [100] (.bool true) = true := by decide
+example : InDomain [53, 99] (.int 255) = true := by decide                             -- "5c" on ÿ
+example : InDomain [233, 94, 55, 46, 50] (.str [26085, 26412, 35486]) = true := by decide  -- "é^7.2" on 日本語
+example : InDomain [53] (.bool true) = true := by decide                               -- "5" on True
 
-/-! ## 7. The full statement and its witnessed negations -/
+/-! ## 7. The full statement, its remaining witnessed negations, and the repaired shapes -/
 
 /-- The property as stated: for EVERY spec and value the outcome is Python's. -/
 def format_eq_full : Prop :=
@@ -264,94 +285,45 @@ def format_eq_full : Prop :=
 
 def no_panic_full : Prop := ∀ (spec : List Nat) (v : Value), format spec v ≠ .panic
 
-/-- `format("é", ".1")` panics (String::truncate off a char boundary). -/
+/-- still false: a float precision above `u16::MAX` panics inside `format!` (rustc ≥ 1.87) -/
 theorem no_panic_fails : ¬ no_panic_full := by
   intro h
-  exact h [46, 49] (.str [233]) (by decide)
+  exact h [46, 54, 53, 53, 51, 54, 102] (.float 4607182418800017408) (by decide +kernel)
 
+/-- still false: `format("a", "=5")` is accepted -/
 theorem format_eq_fails : ¬ format_eq_full := by
   intro h
-  exact absurd (h [33, 114] (.int 1)) (by decide)
-
-/-- outcome of the model ≠ outcome demanded by the reference -/
-def Deviates (spec : List Nat) (v : Value) : Prop :=
-  (format spec v).view ≠ some (pyFormat spec v.toPy)
+  exact absurd (h [61, 53] (.str [97])) (by decide)
 
 section witnesses
-/- One witness per excluded shape (the key is the entry of known_findings.d/C18.json). -/
+/- One witness per remaining known finding (the key is the entry of known_findings.d/C18.json). -/
 
-/-- conv-prefix-accepted: `format(1, "!r")` → "1"; Python raises -/
-theorem dev_conv_prefix : (format [33, 114] (.int 1)).view = some (some [49]) ∧
-    pyFormat [33, 114] (.int 1) = none := by decide
-/-- z-flag-rejected (int side of it: `format(0, "ze")` needs floats; parse level shown here):
-    `z.1f` is rejected by the parser although it is in the grammar -/
+/-- z-flag-rejected: `z.1f` is rejected by the parser although it is in the grammar -/
 theorem dev_z_flag : (∃ e, parseSpec [122, 46, 49, 102] = .error e) ∧
     (pyParseSpec [122, 46, 49, 102]).isSome = true := ⟨⟨_, rfl⟩, by decide⟩
-/-- group-exp-type-panic: `format(0, ",e")` -/
-theorem dev_group_exp_panic : format [44, 101] (.int 0) = .panic := by decide +kernel
+/-- int-c-surrogate-rejected: `format(0xD800, "c")` is rejected (it panicked before b3fed62); CPython
+    returns the lone surrogate, which a Rust `String` cannot hold -/
+theorem dev_c_surrogate : (format [99] (.int 55296)).view = some none ∧
+    pyFormat [99] (PyValue.int 55296) = some [55296] := by decide
 /-- str-eq-align-accepted: `format("a", "=5")` -/
 theorem dev_str_eq_align : (format [61, 53] (.str [97])).view = some (some [32, 32, 32, 32, 97]) ∧
-    pyFormat [61, 53] (.str [97]) = none := by decide
-/-- str-sign-accepted: `format("a", "+")` -/
-theorem dev_str_sign : (format [43] (.str [97])).view = some (some [97]) ∧
-    pyFormat [43] (.str [97]) = none := by decide
-/-- str-alt-accepted: `format("a", "#")` -/
-theorem dev_str_alt : (format [35] (.str [97])).view = some (some [97]) ∧
-    pyFormat [35] (.str [97]) = none := by decide
-/-- str-precision-bytes: `format("é", ".1")` panics; `format("éa", ".2")` loses a character -/
-theorem dev_str_precision_bytes : format [46, 49] (.str [233]) = .panic ∧
-    (format [46, 50] (.str [233, 97])).view = some (some [233]) ∧
-    pyFormat [46, 50] (.str [233, 97]) = some [233, 97] := by decide
-/-- str-precision-after-padding: `format("abc", "5.2")` → "ab", Python "ab   " -/
-theorem dev_str_precision_after_padding : (format [53, 46, 50] (.str [97, 98, 99])).view = some (some [97, 98]) ∧
-    pyFormat [53, 46, 50] (.str [97, 98, 99]) = some [97, 98, 32, 32, 32] := by decide
+    pyFormat [61, 53] (PyValue.str [97]) = none := by decide
+
 /-- str-zero-flag-pads-left: `format("a", "05")` → "0000a", Python "a0000" -/
 theorem dev_str_zero_flag : (format [48, 53] (.str [97])).view = some (some [48, 48, 48, 48, 97]) ∧
-    pyFormat [48, 53] (.str [97]) = some [97, 48, 48, 48, 48] := by decide
-/-- bool-default-type-ignores-spec: `format(True, "5")` → "True", Python "    1" -/
-theorem dev_bool_default : (format [53] (.bool true)).view = some (some [84, 114, 117, 101]) ∧
-    pyFormat [53] (.bool true) = some [32, 32, 32, 32, 49] := by decide
-/-- int-c-precision-accepted: `format(65, ".2c")` → "A"; Python raises -/
-theorem dev_c_precision : (format [46, 50, 99] (.int 65)).view = some (some [65]) ∧
-    pyFormat [46, 50, 99] (.int 65) = none := by decide
-/-- int-c-nonascii-width: `format(255, "5c")` pads to 4 characters -/
-theorem dev_c_nonascii_width : (format [53, 99] (.int 255)).view = some (some [32, 32, 32, 255]) ∧
-    pyFormat [53, 99] (.int 255) = some [32, 32, 32, 32, 255] := by decide
-/-- int-c-surrogate-panic: `format(0xD800, "c")` -/
-theorem dev_c_surrogate : format [99] (.int 55296) = .panic := by decide
-/-- group-width-zero-pads: `format(1234, "10,")` → "00,001,234", Python "     1,234" -/
-theorem dev_group_width : (format [49, 48, 44] (.int 1234)).view =
-      some (some [48, 48, 44, 48, 48, 49, 44, 50, 51, 52]) ∧
-    pyFormat [49, 48, 44] (.int 1234) = some [32, 32, 32, 32, 32, 49, 44, 50, 51, 52] := by decide
-/-- width-wraps-i32: width 2^32+5 pads to 5; width 2^31 overflows `i32` (panic with overflow checks) -/
-theorem dev_width_wraps : (format [52, 50, 57, 52, 57, 54, 55, 51, 48, 49] (.int 1)).view =
-      some (some [32, 32, 32, 32, 49]) ∧
-    format [50, 49, 52, 55, 52, 56, 51, 54, 52, 56] (.int 1) = .panic := by decide
-/-- precision-over-i32-rejected: `format("a", ".2147483648")`; Python gives "a" -/
+    pyFormat [48, 53] (PyValue.str [97]) = some [97, 48, 48, 48, 48] := by decide
+
+/-- precision-over-i32-rejected: `format("a", ".2147483648")` -/
 theorem dev_precision_over_i32 : (format [46, 50, 49, 52, 55, 52, 56, 51, 54, 52, 56] (.str [97])).view = some none ∧
-    pyFormat [46, 50, 49, 52, 55, 52, 56, 51, 54, 52, 56] (.str [97]) = some [97] := by decide
+    pyFormat [46, 50, 49, 52, 55, 52, 56, 51, 54, 52, 56] (PyValue.str [97]) = some [97] := by decide
 
-/-! floats (reference: `Spec.pyFormatFloat` on the exact decimal arithmetic `PV.Dec`) -/
-
-/-- z-flag-rejected: `format(-0.0, "z.1f")` is rejected; Python "0.0" -/
+/-- z-flag-rejected: `format(-0.0, "z.1f")` -/
 theorem dev_z_flag_float : (format [122, 46, 49, 102] (.float 9223372036854775808)).view = some none ∧
     pyFormat [122, 46, 49, 102] (PyValue.float 9223372036854775808) = some [48, 46, 48] := by decide +kernel
-
-/-- group-exp-type-panic: `format(1.0, ",e")` panics; Python "1.000000e+00" -/
-theorem dev_group_exp_panic_float : format [44, 101] (.float 4607182418800017408) = .panic ∧
-    pyFormat [44, 101] (PyValue.float 4607182418800017408) = some [49, 46, 48, 48, 48, 48, 48, 48, 101, 43, 48, 48] := by decide +kernel
-
-/-- group-nonfinite-zero-pad: `format(inf, "08,")` -/
-theorem dev_group_nonfinite : (format [48, 56, 44] (.float 9218868437227405312)).view = some (some [48, 44, 48, 48, 48, 44, 105, 110, 102]) ∧
-    pyFormat [48, 56, 44] (PyValue.float 9218868437227405312) = some [48, 48, 48, 48, 48, 105, 110, 102] := by decide +kernel
 
 /-- int-float-above-max-rejected: `format(f64::MAX + 1, "e")` -/
 theorem dev_int_above_f64max : (format [101] (.int 179769313486231570814527423731704356798070567525844996598917476803157260780028538760589558632766878171540458953514382464234321326889464182768467546703537516986049910576551282076245490090389328944075868508455133942304583236903222948165808559332123348274797826204144723168738177180919299881250404026184124858369)).view = some none ∧
     pyFormat [101] (PyValue.int 179769313486231570814527423731704356798070567525844996598917476803157260780028538760589558632766878171540458953514382464234321326889464182768467546703537516986049910576551282076245490090389328944075868508455133942304583236903222948165808559332123348274797826204144723168738177180919299881250404026184124858369) = some [49, 46, 55, 57, 55, 54, 57, 51, 101, 43, 51, 48, 56] := by decide +kernel
-
-/-- float-group-in-exponent-text: `format(1e100, ",")` -/
-theorem dev_float_group_exponent : (format [44] (.float 6103021453049119613)).view = some (some [49, 101, 43, 44, 49, 48, 48]) ∧
-    pyFormat [44] (PyValue.float 6103021453049119613) = some [49, 101, 43, 49, 48, 48] := by decide +kernel
 
 /-- float-repr-tie-rounds-up: `format(600377706905611.25, "")` -/
 theorem dev_float_tie : (format [] (.float 4828158222569046106)).view = some (some [54, 48, 48, 51, 55, 55, 55, 48, 54, 57, 48, 53, 54, 49, 49, 46, 51]) ∧
@@ -368,10 +340,74 @@ theorem dev_float_no_dot_zero : (format [46, 53] (.float 4607182418800017408)).v
 /-- float-percent-overflow-alt: `format(f64::MAX, "#.0%")` -/
 theorem dev_float_percent_overflow : (format [35, 46, 48, 37] (.float 9218868437227405311)).view = some (some [105, 110, 102, 46, 37]) ∧
     pyFormat [35, 46, 48, 37] (PyValue.float 9218868437227405311) = some [105, 110, 102, 37] := by decide +kernel
+
 /-- precision-over-65535-panic: `format(1.0, ".65536f")` (CPython prints 65536 digits) -/
 theorem dev_precision_over_u16 : format [46, 54, 53, 53, 51, 54, 102] (.float 4607182418800017408) = .panic := by
   decide +kernel
 
 end witnesses
+
+section repaired
+/- The former witnesses, now agreeing with the reference (commit in the comment). -/
+
+/-- conv-prefix-accepted (e5c4721): `format(1, "!r")` is rejected -/
+theorem repaired_conv_prefix : (format [33, 114] (.int 1)).view = some none ∧
+    pyFormat [33, 114] (PyValue.int 1) = none := by decide
+
+/-- group-exp-type-panic (a6de50b): `format(1234567, ",e")` -/
+theorem repaired_group_exp : (format [44, 101] (.int 1234567)).view = some (some [49, 46, 50, 51, 52, 53, 54, 55, 101, 43, 48, 54]) ∧
+    pyFormat [44, 101] (PyValue.int 1234567) = some [49, 46, 50, 51, 52, 53, 54, 55, 101, 43, 48, 54] := by decide +kernel
+
+/-- group-exp-type-panic (a6de50b): `format(1.0, ",e")` -/
+theorem repaired_group_exp_float : (format [44, 101] (.float 4607182418800017408)).view = some (some [49, 46, 48, 48, 48, 48, 48, 48, 101, 43, 48, 48]) ∧
+    pyFormat [44, 101] (PyValue.float 4607182418800017408) = some [49, 46, 48, 48, 48, 48, 48, 48, 101, 43, 48, 48] := by decide +kernel
+
+/-- group-width-zero-pads (a6de50b): `format(1234, "10,")` -/
+theorem repaired_group_width : (format [49, 48, 44] (.int 1234)).view = some (some [32, 32, 32, 32, 32, 49, 44, 50, 51, 52]) ∧
+    pyFormat [49, 48, 44] (PyValue.int 1234) = some [32, 32, 32, 32, 32, 49, 44, 50, 51, 52] := by decide
+
+/-- group-nonfinite-zero-pad (a6de50b): `format(inf, "08,")` -/
+theorem repaired_group_nonfinite : (format [48, 56, 44] (.float 9218868437227405312)).view = some (some [48, 48, 48, 48, 48, 105, 110, 102]) ∧
+    pyFormat [48, 56, 44] (PyValue.float 9218868437227405312) = some [48, 48, 48, 48, 48, 105, 110, 102] := by decide +kernel
+
+/-- float-group-in-exponent-text (a6de50b): `format(1e100, ",")` -/
+theorem repaired_float_group_exponent : (format [44] (.float 6103021453049119613)).view = some (some [49, 101, 43, 49, 48, 48]) ∧
+    pyFormat [44] (PyValue.float 6103021453049119613) = some [49, 101, 43, 49, 48, 48] := by decide +kernel
+
+/-- str-sign-accepted (19885fd): `format("a", "+")` -/
+theorem repaired_str_sign : (format [43] (.str [97])).view = some none ∧
+    pyFormat [43] (PyValue.str [97]) = none := by decide
+
+/-- str-alt-accepted (19885fd): `format("a", "#")` -/
+theorem repaired_str_alt : (format [35] (.str [97])).view = some none ∧
+    pyFormat [35] (PyValue.str [97]) = none := by decide
+
+/-- str-precision-bytes (19885fd): `format("éa", ".1")` -/
+theorem repaired_str_precision_bytes : (format [46, 49] (.str [233, 97])).view = some (some [233]) ∧
+    pyFormat [46, 49] (PyValue.str [233, 97]) = some [233] := by decide
+
+/-- str-precision-after-padding (19885fd): `format("abc", "5.2")` -/
+theorem repaired_str_precision_after_padding : (format [53, 46, 50] (.str [97, 98, 99])).view = some (some [97, 98, 32, 32, 32]) ∧
+    pyFormat [53, 46, 50] (PyValue.str [97, 98, 99]) = some [97, 98, 32, 32, 32] := by decide
+
+/-- bool-default-type-ignores-spec (54c4118): `format(True, "5")` -/
+theorem repaired_bool_default : (format [53] (.bool true)).view = some (some [32, 32, 32, 32, 49]) ∧
+    pyFormat [53] (PyValue.bool true) = some [32, 32, 32, 32, 49] := by decide
+
+/-- int-c-precision-accepted (b3fed62): `format(65, ".2c")` -/
+theorem repaired_c_precision : (format [46, 50, 99] (.int 65)).view = some none ∧
+    pyFormat [46, 50, 99] (PyValue.int 65) = none := by decide
+
+/-- int-c-nonascii-width (b3fed62): `format(255, "5c")` -/
+theorem repaired_c_nonascii_width : (format [53, 99] (.int 255)).view = some (some [32, 32, 32, 32, 255]) ∧
+    pyFormat [53, 99] (PyValue.int 255) = some [32, 32, 32, 32, 255] := by decide
+
+/-- int-c-surrogate-panic (b3fed62): no panic any more -/
+theorem repaired_c_surrogate_no_panic : format [99] (.int 55296) ≠ .panic := by decide
+/-- width-wraps-i32 (b59d482): widths above `i32::MAX` are rejected at parse time -/
+theorem repaired_width_limit : (∃ e, parseSpec [52, 50, 57, 52, 57, 54, 55, 51, 48, 49] = .error e) ∧
+    (∃ e, parseSpec [50, 49, 52, 55, 52, 56, 51, 54, 52, 56] = .error e) := ⟨⟨_, rfl⟩, ⟨_, rfl⟩⟩
+
+end repaired
 
 end PV.C18
